@@ -235,6 +235,13 @@ func (t *trTranslator) closedSumCheck1(n *types.Named) {
 					trFail(x.Pos(), "closed sum %s: re-slicing a []%s could reach the zeroed capacity: outside the subset", name, name)
 				}
 			case *ast.CallExpr:
+				if id, ok := x.Fun.(*ast.Ident); ok && id.Name == "clear" && len(x.Args) == 1 {
+					if _, isB := p.info.Uses[id].(*types.Builtin); isB {
+						if tv, ok := p.info.Types[x.Args[0]]; ok && tv.Type != nil && isSlice(tv.Type) {
+							trFail(x.Pos(), "closed sum %s: clear of a []%s makes its elements nil: outside the subset", name, name)
+						}
+					}
+				}
 				tv, ok := p.info.Types[x.Fun]
 				if !ok || tv.Type == nil || tv.IsType() {
 					break
